@@ -521,13 +521,15 @@ def rows_check(ctx, pkg, test, module, env=None, timeout=1200, workers=2, rows_n
     if shards > 1:
         binary = go_test_build(ctx, pkg)
         crashes = []
+        resumed = {}
 
         def launch(k, skipfile):
             d = os.path.join(out, "shard-%d" % k)
             os.makedirs(d, exist_ok=True)
             ek = dict(go_env())
             ek.update(e)
-            ek.update({"VERIF_OUT": d, "VERIF_SHARD": "%d/%d" % (k, shards), "VERIF_SKIPFILE": skipfile})
+            ek.update({"VERIF_OUT": d, "VERIF_SHARD": "%d/%d" % (k, shards), "VERIF_SKIPFILE": skipfile,
+                       "VERIF_APPEND": "1" if resumed.get(k) else ""})
             return subprocess.Popen([binary, "-test.run", test, "-test.count=1", "-test.timeout", "%ds" % timeout],
                                     cwd=os.path.join(REPO, pkg), env=ek, stdout=subprocess.PIPE,
                                     stderr=subprocess.STDOUT, text=True, errors="replace")
@@ -552,15 +554,37 @@ def rows_check(ctx, pkg, test, module, env=None, timeout=1200, workers=2, rows_n
                 m = re.search(r"^panic: (.*)$", o, re.M)
                 own = m and "test timed out" not in m.group(1) and re.search(r"/repo/(internal|cmd)/(?![^\n]*zzverif_)[^\n]*\.go:\d+", o) \
                     and not re.search(r"^panic: .*\n(?:.*\n){0,6}.*zzverif_", o, re.M)
-                if own and attempts[k] < 25 and os.path.exists(os.path.join(d, "current.json")):
+                if own and attempts[k] < 200 and os.path.exists(os.path.join(d, "current.json")):
                     attempts[k] += 1
                     cur = json.load(open(os.path.join(d, "current.json")))
                     i0 = o.find("panic: ")
                     frames = re.findall(r"(/repo/[^\s]+\.go:\d+)", o[i0:i0 + 6000])
                     crashes.append({"scenario": cur, "panic": m.group(1), "frames": [f for f in frames if "zzverif" not in f][:6],
                                     "text": o[i0:i0 + 1500]})
+                    # resume: what the dead process had completed is kept (torn last lines dropped) and skipped
+                    done_ids = set()
+                    for fn in (rows_name, "meta.ndjson"):
+                        fp = os.path.join(d, fn)
+                        if not os.path.exists(fp):
+                            continue
+                        good = []
+                        for ln in open(fp, errors="replace"):
+                            try:
+                                obj = json.loads(ln)
+                            except ValueError:
+                                break
+                            if not ln.endswith("\n"):
+                                break
+                            good.append(ln)
+                            if fn == "meta.ndjson" and isinstance(obj, dict) and obj.get("scn") and "scenario" in obj:
+                                done_ids.add(obj["scn"])
+                        with open(fp, "w") as fh:
+                            fh.writelines(good)
                     with open(skipfiles[k], "a") as fh:
                         fh.write(cur["id"] + "\n")
+                        for i in sorted(done_ids):
+                            fh.write(i + "\n")
+                    resumed[k] = True
                     procs[k] = launch(k, skipfiles[k])
                     pending.append(k)
                     continue
